@@ -586,7 +586,7 @@ def run(ctx, only_entry=False):
            "bare or in parentheses, with the register and value written", "parser/implementation/mod.rs parse_source / "
            "parse_destination / parse_memory", "; ".join(bad_ops[:3]) or "%d (operand rule, text) cases" % nops,
            "A4 of the real operand parsers on the PEG parse trees of concrete operand texts")
-    chk.floor("operand form cases", nops, 90)
+    chk.floor("operand form cases", nops, 120)
     # the dispatcher maps each instruction alternative to its own handler
     rs = results.get((PI + "parse_instruction", "instruction"), [])
     chk.floor("instruction alternatives dispatched", len(rs), 55)
